@@ -1,6 +1,7 @@
-(* WGProg.v — hand copies of the IR listing (Base/ConcIR.v) of Add / Wait / Count of
+(* WGProg.v — hand copies of the IR (Base/ConcIR.v) of Add / Wait / Count of
    gsync/selectable_wait_group.go.  harness/cmd/xlate_conc regenerates the same term from the
    source on every run; the check compiles  `tie : gen_prog = hand_prog := eq_refl`.
+   WGDenote.v proves that the machines of WGModel.v are the denotations of these terms.
 
    The sites are the micro-steps of the machines in WGModel.v:
      current code   100 = A0 (state.Load)   101 = A1 (state.CompareAndSwap)   102 = A2 (close)
@@ -8,64 +9,59 @@
      pinned code    100 = OA0 (count.Add) 101 = OA1 (wChan.Swap) 102 = OA2 (close old)
                     103 = OA3 (wChan.CompareAndSwap) 104 = OA4 (close new)
                     200 = OW0 (count.Load) 201 = OW1 (wChan.Load) 300 = OC0 (count.Load)
-   [hand_sites_ok] checks that the sites of the listing are exactly the sites the machine's
-   program counters map to (WGModel.wg_site).                                              *)
-From Coq Require Import List String.
+   Locals: current Add v1 = delta, v2 = old, v3 = next; pinned Add v1 = delta, v2 = newV,
+   v3 = oldChan, v4 = newChan; pinned Wait v1 = count, v2 = wgChan.                          *)
+From Coq Require Import List String ZArith.
 From GT Require Import Base.ConcIR.
 Import ListNotations.
 Local Open Scope string_scope.
 
-Definition hand_prog : list func :=
-[("Add",
- [SLoop None [] ""
- ([SOps (Some 100) [OAtomic ALoad "state"] "v2 := recv.state.Load()";
- SIf None [] "v3.count == 0"
- ([])
- ([SIf None [] "v2.wChan == closedChan"
- ([SOps None [OMake] "v3.wChan = make(chan struct{})"])
+Definition hand_prog : prog :=
+[Func "Add" ["v1"]
+ [SLoop
+ ([SDefine (Some 100) "v2" (EAtomic ALoad "state" []);
+ SDefine None "v3" (ENew "wgState" [("count", (EBin BAdd (EField (EVar "v2") "count") (EVar "v1"))); ("wChan", (EField (EVar "v2") "wChan"))]);
+ SIf None (EBin BEq (EField (EVar "v3") "count") (EInt 0%Z))
+ ([SAssign None (LField "v3" "wChan") (EGlobal "closedChan")])
+ ([SIf None (EBin BEq (EField (EVar "v2") "wChan") (EGlobal "closedChan"))
+ ([SAssign None (LField "v3" "wChan") EMake])
  ([])]);
- SIf (Some 101) [OAtomic ACAS "state"] "recv.state.CompareAndSwap(v2, v3)"
- ([SIf None [] "v3.count == 0 && v2.wChan != closedChan"
- ([SOps (Some 102) [OClose] "close(v2.wChan)"])
+ SIf (Some 101) (EAtomic ACAS "state" [(EVar "v2"); (EVar "v3")])
+ ([SIf None (EBin BAnd (EBin BEq (EField (EVar "v3") "count") (EInt 0%Z)) (EBin BNe (EField (EVar "v2") "wChan") (EGlobal "closedChan")))
+ ([SClose (Some 102) (EField (EVar "v2") "wChan")])
  ([]);
- SReturn None [] "v3.count"])
- ([])])]);
-("Wait",
- [SReturn (Some 200) [OAtomic ALoad "state"] "recv.state.Load().wChan"]);
-("Count",
- [SReturn (Some 300) [OAtomic ALoad "state"] "recv.state.Load().count"])].
+ SReturn None (EField (EVar "v3") "count")])
+ ([])])];
+Func "Wait" []
+ [SReturn (Some 200) (EField (EAtomic ALoad "state" []) "wChan")];
+Func "Count" []
+ [SReturn (Some 300) (EField (EAtomic ALoad "state" []) "count")]].
 
-(* the pinned two-word algorithm (before fix C01-paircas) *)
-Definition hand_prog_orig : list func :=
-[("Add",
- [SOps (Some 100) [OAtomic AAdd "count"] "v2 := recv.count.Add(int64(v1))";
- SIf None [] "v2 == 0"
- ([SOps (Some 101) [OAtomic ASwap "wChan"] "v3 := recv.wChan.Swap(&closedChan)";
- SIf None [] "v3 != &closedChan"
- ([SOps (Some 102) [OClose] "close(*v3)"])
+(* the pinned two-word algorithm (before fix a7e7681) *)
+Definition hand_prog_orig : prog :=
+[Func "Add" ["v1"]
+ [SDefine (Some 100) "v2" (EAtomic AAdd "count" [(EConv (EVar "v1"))]);
+ SIf None (EBin BEq (EVar "v2") (EInt 0%Z))
+ ([SDefine (Some 101) "v3" (EAtomic ASwap "wChan" [(EAddr (EGlobal "closedChan"))]);
+ SIf None (EBin BNe (EVar "v3") (EAddr (EGlobal "closedChan")))
+ ([SClose (Some 102) (EDeref (EVar "v3"))])
  ([])])
- ([SIf None [] "v1 > 0 && v2 == int64(v1)"
- ([SOps None [OMake] "v4 := make(chan struct{})";
- SIf (Some 103) [OAtomic ACAS "wChan"] "!recv.wChan.CompareAndSwap(&closedChan, &v4)"
- ([SOps (Some 104) [OClose] "close(v4)"])
+ ([SIf None (EBin BAnd (EBin BGt (EVar "v1") (EInt 0%Z)) (EBin BEq (EVar "v2") (EConv (EVar "v1"))))
+ ([SDefine None "v4" EMake;
+ SIf (Some 103) (ENot (EAtomic ACAS "wChan" [(EAddr (EGlobal "closedChan")); (EAddr (EVar "v4"))]))
+ ([SClose (Some 104) (EVar "v4")])
  ([])])
  ([])]);
- SReturn None [] "int(v2)"]);
-("Wait",
- [SLoop None [] ""
- ([SOps (Some 200) [OAtomic ALoad "count"] "v1 := recv.count.Load()";
- SOps (Some 201) [OAtomic ALoad "wChan"] "v2 := recv.wChan.Load()";
- SIf None [] "v1 == 0 || (v1 > 0 && v2 != &closedChan)"
- ([SReturn None [] "*v2"])
- ([])])]);
-("Count",
- [SReturn (Some 300) [OAtomic ALoad "count"] "int(recv.count.Load())"])].
+ SReturn None (EConv (EVar "v2"))];
+Func "Wait" []
+ [SLoop
+ ([SDefine (Some 200) "v1" (EAtomic ALoad "count" []);
+ SDefine (Some 201) "v2" (EAtomic ALoad "wChan" []);
+ SIf None (EBin BOr (EBin BEq (EVar "v1") (EInt 0%Z)) (EBin BAnd (EBin BGt (EVar "v1") (EInt 0%Z)) (EBin BNe (EVar "v2") (EAddr (EGlobal "closedChan")))))
+ ([SReturn None (EDeref (EVar "v2"))])
+ ([])])];
+Func "Count" []
+ [SReturn (Some 300) (EConv (EAtomic ALoad "count" []))]].
 
-Definition hand_sites : list (list nat) := map func_sites hand_prog.
-Definition hand_sites_orig : list (list nat) := map func_sites hand_prog_orig.
-
-(* the shared-memory operation behind every program counter of the machines of WGModel.v;
-   WGProofs.hand_prog_sites / hand_prog_orig_sites check these tables against the listing and
-   against WGModel.wg_site / wgo_site *)
-Definition hand_site_ops : list (nat * list op) := flat_map func_site_ops hand_prog.
-Definition hand_site_ops_orig : list (nat * list op) := flat_map func_site_ops hand_prog_orig.
+Definition hand_site_ops : list (nat * list opkind) := flat_map func_site_ops hand_prog.
+Definition hand_site_ops_orig : list (nat * list opkind) := flat_map func_site_ops hand_prog_orig.
